@@ -598,10 +598,9 @@ def check_childless(ctx, rule):
                         reason = 'p keeps its (unique) feasible child: only children with Infeasible state are removed'
         # (c) guarded by num_children(p) > 1
         if reason is None:
-            for lit in lits:
-                x = lit[1]
-                if lit[0] == 'true' and x[0] == 'bin' and x[1] in ('Gt', 'Ge') and is_call(x[2], 'Tree::num_children') and s(x[2][2][1]) == s(p) \
-                        and x[3][0] == 'const' and ((x[1] == 'Gt' and x[3][1] >= 1) or (x[1] == 'Ge' and x[3][1] >= 2)):
+            for op_, x_, y_ in cmp_facts(lits):
+                if op_ in ('Gt', 'Ge') and is_call(x_, 'Tree::num_children') and s(x_[2][1]) == s(p) \
+                        and y_[0] == 'const' and isinstance(y_[1], int) and ((op_ == 'Gt' and y_[1] >= 1) or (op_ == 'Ge' and y_[1] >= 2)):
                     reason = 'guarded by num_children(p) > 1: the last child is never removed'
         # (d) keep-one idiom: removals are drawn from a queue; when no other child was kept, one entry is popped (kept) first
         if reason is None:
@@ -976,9 +975,15 @@ def check_mirror_contract(ctx, rule):
     R = Resolver(b)
     cfg = b.cfg()
 
-    def all_nonneg(clo, want_field):
-        """closure = |item| item[.1].iter().all(|v| v >= 0)"""
+    def all_nonneg(clo, want_field, then_payload=None):
+        """closure = |item| item[.1].iter().all(|v| v >= 0)      (or, for filter_map: that test `.then(|| <payload of item.0>)`)"""
         cb, rets = closure_ret(F, clo)
+        if rets and len(rets) == 1 and then_payload is not None and is_call(rets[0], 'bool::then') and len(rets[0][2]) == 2:
+            # `cond.then(|| f(point))` keeps exactly the items whose cond is true and maps them: filter + map in one closure
+            payload = rets[0][2][1]
+            if not (payload[0] == 'closure' and any(isinstance(x, tuple) and x[:1] == ('field',) and x[2] == then_payload for c_ in payload[2] for x in walk(c_))):
+                return False
+            rets = [rets[0][2][0]]
         if not (rets and len(rets) == 1 and is_call(rets[0], 'Iterator::all')):
             return False
         onfield, inner = rets[0][2][0], rets[0][2][1]
@@ -1021,7 +1026,14 @@ def check_mirror_contract(ctx, rule):
             src, filters = filter_chain(v)
             ok = False
             detail = ''
-            if filters and is_call(src, 'zip') or (src is not None and src[0] == 'call' and src[1].endswith('zip')):
+            fms = find(v, lambda x: is_call(x, 'Iterator::filter_map') and len(x[2]) == 2 and x[2][1][0] == 'closure')
+            if not filters and len(fms) == 1 and is_call(fms[0][2][0], 'zip', 'Iterator::zip') and all_nonneg(fms[0][2][1], '1', then_payload='0'):
+                cand, dist = fms[0][2][0][2][0], fms[0][2][0][2][1]
+                why = dist_ok(cand, dist)
+                ok = why is None
+                detail = why or ''
+                dist_expr = _strip_axis(dist)
+            elif filters and is_call(src, 'zip') or (src is not None and src[0] == 'call' and src[1].endswith('zip')):
                 cand, dist = src[2][0], src[2][1]
                 for f in filters:
                     if all_nonneg(f, '1'):
